@@ -256,8 +256,15 @@ pub fn solve_sys(a: &[f64], b: &[f64]) -> Vec<f64> {
         let mut solutions = Vec::with_capacity(b.len());
         let b = row_to_col_major(b, n);
 
-        if is_positive_definite(a) {
-            let l = cholesky(a);
+        // symmetry and a positive diagonal do not imply positive definiteness: use the Cholesky
+        // factor only if the factorization succeeds, otherwise fall back to LU
+        let chol = if is_positive_definite(a) {
+            try_cholesky(a)
+        } else {
+            None
+        };
+
+        if let Some(l) = chol {
             for i in 0..nsys {
                 let sol = cholesky_solve(&l, &b[(i * n)..((i + 1) * n)]);
                 assert_eq!(sol.len(), n);
@@ -305,8 +312,15 @@ pub fn solve(a: &[f64], b: &[f64]) -> Vec<f64> {
 
     #[cfg(not(feature = "lapack"))]
     {
-        if is_positive_definite(a) {
-            let l = cholesky(a);
+        // symmetry and a positive diagonal do not imply positive definiteness: use the Cholesky
+        // factor only if the factorization succeeds, otherwise fall back to LU
+        let chol = if is_positive_definite(a) {
+            try_cholesky(a)
+        } else {
+            None
+        };
+
+        if let Some(l) = chol {
             cholesky_solve(&l, b)
         } else {
             let (lu, piv) = lu(a);
